@@ -244,6 +244,23 @@ def method_loops(a, keys):
     return out
 
 
+def initial_cell_value(a, lp, obase, path):
+    """The value a cell holds whenever the loop is entered from outside: the one value every store / whole-aggregate assignment to it
+    outside the loop that dominates the loop head gives it (Poly), or None when that is not a single value."""
+    cands = [x["val"] for x in a.assigns + a.stores if x["cell"] == (obase, path) and x["site"][0] not in lp.blocks and a.dominates(x["site"][0], lp.nxt.bb)]
+    whole = [x["val"] for x in a.assigns if x["cell"] == (obase, ()) and x["val"][0] == "A" and x["site"][0] not in lp.blocks and a.dominates(x["site"][0], lp.nxt.bb)] if path else []
+    if path and obase[0] == "local":
+        for c_ in a.calls:
+            if c_.term.get("dest") and c_.term["dest"]["l"] == obase[1] and not c_.term["dest"]["p"] and c_.ret is not None and c_.ret[0] == "A" and a.dominates(c_.bb, lp.nxt.bb):
+                whole.append(c_.ret)
+    vals = [v[1] for v in cands if v[0] == "I"]
+    if path and len(path) == 1 and isinstance(path[0], int):
+        vals += [w[2][path[0]][1] for w in whole if path[0] < len(w[2]) and w[2][path[0]][0] == "I"]
+    if vals and all(v == vals[0] for v in vals) and len(vals) == len([v for v in cands]) + len(whole):
+        return vals[0]
+    return None
+
+
 def slices_of(pipe):
     return find_in(pipe, lambda t: isinstance(t, tuple) and len(t) == 5 and t[0] == "V" and t[1] == "iter" and t[2] == "slice")
 
